@@ -59,10 +59,11 @@ let config_s (c : config) : string =
 let progress_s (id : n) (p : progress) : string =
   let i = p.pr_inflights in
   let w = infl_window i in
-  Printf.sprintf "%s:%s:%s:%s:%s:%s:%s:%s:%s:%s:%s:%s:%s" (sn id) (sn p.pr_match) (sn p.pr_next) (pr_letter p.pr_state_)
+  Printf.sprintf "%s:%s:%s:%s:%s:%s:%s:%s:%s:%s:%s:%s:%s:%s:%s" (sn id) (sn p.pr_match) (sn p.pr_next) (pr_letter p.pr_state_)
     (sn p.pr_pending_snapshot) (b2s p.pr_recent_active) (b2s p.pr_paused) (sn p.pr_sent_commit) (b2s p.pr_is_learner)
     (sn i.in_count) (sn i.in_bytes) (b2s (infl_full i))
     (list_or "," (List.map (fun (a, b) -> Printf.sprintf "%s/%s" (sn a) (sn b)) w))
+    (sn i.in_size) (sn i.in_maxbytes)
 
 (* key/value observation of the model *)
 let state_kvs (rn : rawnode) : (string * string) list =
@@ -78,6 +79,7 @@ let state_kvs (rn : rawnode) : (string * string) list =
     ("uoip", sn u.u_offset_in_progress); ("uents", entries_s u.u_entries); ("usnap", snap_opt_s u.u_snapshot);
     ("usip", b2s u.u_snapshot_in_progress); ("cfg", config_s r.r_trk.t_config);
     ("prs", list_or "|" (List.map (fun (id, p) -> progress_s id p) r.r_trk.t_progress));
+    ("tmif", sn r.r_trk.t_max_inflight); ("tmib", sn r.r_trk.t_max_inflight_bytes);
     ("votes", list_or "," (List.map (fun (id, v) -> Printf.sprintf "%s:%s" (sn id) (b2s v)) r.r_trk.t_votes));
     ("roacks", list_or "," (List.map (fun (id, v) -> Printf.sprintf "%s:%s" (sn id) (sn v)) ro.ro_acks));
     ("rounc", list_or "|" (List.map (fun (m, i) -> Printf.sprintf "%s@%s" (sn i) (msg_s m)) ro.ro_unconfirmed));
